@@ -50,6 +50,7 @@ var schemaFields = map[string][]fdef{
 	"A":     {{"id", "Int", false, ""}, {"name", "String", false, ""}, {"tag", "String", false, "x"}, {"score", "Int", false, ""}, {"b", "B", false, ""}, {"bs", "B", true, ""}, {"u", "U", false, ""}},
 	"B":     {{"id", "Int", false, ""}, {"val", "Int", false, ""}, {"a", "A", false, ""}, {"cs", "C", true, ""}, {"label", "String", false, "p"}},
 	"C":     {{"id", "Int", false, ""}, {"w", "Int", false, ""}},
+	"F":     {{"id", "Int", false, ""}, {"tags", "String", true, ""}},
 }
 
 func fieldDef(typ, name string) fdef {
@@ -61,7 +62,9 @@ func fieldDef(typ, name string) fdef {
 	panic("no field " + typ + "." + name)
 }
 
-func isObj(t string) bool { return t == "A" || t == "B" || t == "C" || t == "U" || t == "D" }
+func isObj(t string) bool {
+	return t == "A" || t == "B" || t == "C" || t == "U" || t == "D" || t == "F"
+}
 
 type gen struct {
 	noD    bool // the federated schema has no D type
@@ -257,7 +260,7 @@ func (g *gen) genUnionSet(depth int) *qset {
 	if g.c.Choose(3, "union-typename") == 1 {
 		set.sels = append(set.sels, &qsel{name: "__typename"})
 	}
-	for _, m := range []string{"A", "B", "C"} {
+	for _, m := range []string{"A", "B", "C", "F"} {
 		k := g.c.Choose(8, "union-member")
 		if k == 0 && len(set.frags) > 0 {
 			continue // member without fragment
@@ -431,6 +434,8 @@ func (e *evaluator) field(typ string, id int64, s *qsel, merged []*qsel, unionSe
 			oid = w.bs[idx].ID
 		case "C":
 			oid = w.cs[idx].ID
+		case "F":
+			oid = w.fs[idx].ID
 		}
 		return func(pp []string) interface{} { return e.objectSels(t, oid, merged, pp) }
 	}
@@ -471,8 +476,14 @@ func (e *evaluator) field(typ string, id int64, s *qsel, merged []*qsel, unionSe
 			out = append(out, e.objectSels("D", w.ds[idx].ID, merged, path(p, fmt.Sprint(i))))
 		}
 		return out
-	case "D.id":
+	case "D.id", "F.id":
 		return id
+	case "F.tags":
+		out := []interface{}{}
+		for _, t := range w.fs[id-100].Tags {
+			out = append(out, t)
+		}
+		return out
 	case "D.tags":
 		out := []interface{}{}
 		for _, t := range w.ds[id-400].Tags {
@@ -550,6 +561,8 @@ func (e *evaluator) union(r ref, sets []*qset, p []string) interface{} {
 		oid = e.w.bs[r.id].ID
 	case "C":
 		oid = e.w.cs[r.id].ID
+	case "F":
+		oid = e.w.fs[r.id].ID
 	}
 	return e.objectSels(r.typ, oid, sels, p)
 }
